@@ -430,16 +430,22 @@ func lcRes(err error) string {
 	if err == nil {
 		return "ok"
 	}
-	if strings.HasPrefix(err.Error(), "PANIC") {
+	var p *lcPanic
+	if errors.As(err, &p) {
 		return "panic"
 	}
 	return "err"
 }
 
+// lcPanic is the error lcGuard turns a panic of the code under test into.
+type lcPanic struct{ v interface{} }
+
+func (p *lcPanic) Error() string { return fmt.Sprintf("PANIC: %v", p.v) }
+
 func lcGuard(f func() error) (err error) {
 	defer func() {
 		if p := recover(); p != nil {
-			err = fmt.Errorf("PANIC: %v", p)
+			err = &lcPanic{v: p}
 		}
 	}()
 	return f()
